@@ -118,7 +118,7 @@ def gen_cases(rng, tier):
     cases = []
     quick = tier == "quick"
     # random chains; "battery" = fraction of the read-only method battery run at the end of each chain
-    nb = {"old": 14, "new": 14, "newcoll": 5} if quick else {"old": 90, "new": 90, "newcoll": 30}
+    nb = {"old": 12, "new": 12, "newcoll": 5} if quick else {"old": 84, "new": 84, "newcoll": 28}
     for impl, n in nb.items():
         for _ in range(n):
             cases.append(
@@ -131,6 +131,13 @@ def gen_cases(rng, tier):
                     "index_sweep": "ends" if quick else "full",
                 }
             )
+    for impl in ("old", "new"):
+        # equivalent input forms x with/without annotation_offset
+        for _ in range(2 if quick else 12):
+            cases.append({"kind": "forms", "impl": impl, "seed": rng.randrange(2**32), "n": 4 if quick else 10})
+        # histories of collection operations, every live object re-read after every operation
+        for _ in range(3 if quick else 16):
+            cases.append({"kind": "collections", "impl": impl, "seed": rng.randrange(2**32), "n": 25 if quick else 60})
     # exhaustive slice triples on shallow views (bounds from [-L-pad, L+pad] u {None})
     #   quick:    L<=4 on the full view (steps up to +-3), L<=3 on every view of one slice (steps up to +-2); pad 1
     #   thorough: L<=6 on views of <=1 slice (pad 3), L<=4 on views of two slices (pad 2), all steps
@@ -365,17 +372,134 @@ def direction_case(op, m):
 # real objects
 
 
-def build(impl, mt, s, off, start="plain"):
+# input forms through which the same sequence can be constructed (all must give identical observations)
+FORMS = {
+    "old": ["str", "bytes", "moltype-str", "moltype-bytes", "ctor-str", "ctor-bytes", "ctor-tuple", "ctor-list",
+            "ctor-seqview-off", "ctor-seqview+off", "ctor-seq-off", "ctor-seq+off", "ctor-arrayseq"],
+    "new": ["str", "bytes", "moltype-str", "moltype-bytes", "ctor-str", "ctor-bytes", "ctor-tuple", "ctor-list",
+            "ctor-seqview-off", "ctor-seqview+off", "ctor-seq-off", "ctor-seq+off"],
+}
+# tried as well in the "forms" kind; not accepted by the current constructors (counted, not judged)
+FORMS_PROBED = ["ndarray", "ctor-ndarray"]
+
+
+class FormNotApplicable(Exception):
+    pass
+
+
+INPUT_TYPE = {
+    "str": "str", "moltype-str": "str", "ctor-str": "str", "bytes": "bytes", "moltype-bytes": "bytes",
+    "ctor-bytes": "bytes", "ctor-tuple": "tuple", "ctor-list": "list", "ctor-seqview-off": "seqview",
+    "ctor-seqview+off": "seqview", "ctor-seq-off": "sequence", "ctor-seq+off": "sequence",
+    "ctor-arrayseq": "arraysequence", "ndarray": "ndarray", "ctor-ndarray": "ndarray",
+}  # the constructors dispatch on the type of the data: one mechanism per type, whichever entry point was used
+
+
+class Built:
+    """a freshly constructed sequence plus the objects it was derived from, each with a fresh-accessor reader and
+    the observation the *model* expects from it (a derived object must leave its sources as they were)"""
+
+    def __init__(self, seq):
+        self.seq = seq
+        self.sources = []  # (label, reader() -> observation, expected observation)
+
+    def add_source(self, label, reader, expected):
+        self.sources.append((label, reader, expected))
+
+
+def expect_snapshot(s, name, off, strand=1):
+    return [s, [name, off, off + len(s), strand]] if s else [s]
+
+
+def _snapshot_of(seq, s):
+    snap = _snapshot(seq)
+    return snap if s else snap[:1]
+
+
+def build(impl, mt, s, off, start="plain", form="str"):
     from cogent3 import make_seq
 
     if impl == "newcoll":
         from cogent3 import make_unaligned_seqs
 
-        coll = make_unaligned_seqs({"s0": s[::-1] + "A", NAME: s, "s2": "AC"}, moltype=mt, new_type=True)
+        data = {"s0": s[::-1] + "A", NAME: s, "s2": "AC"}
+        coll0 = coll = make_unaligned_seqs(dict(data), moltype=mt, new_type=True)
         if start == "collrc":
-            coll = coll.rc()
-        return coll.get_seq(NAME)
-    return make_seq(s, name=NAME, moltype=mt, new_type=(impl == "new"), annotation_offset=off)
+            coll = coll0.rc()
+        b = Built(coll.get_seq(NAME))
+        b.add_source("original-collection", lambda: coll0.to_dict(), dict(data))
+        b.add_source(
+            "original-collection-member", lambda: _snapshot_of(coll0.get_seq(NAME), s), expect_snapshot(s, NAME, 0)
+        )
+        if coll is not coll0:
+            rcd = {k: comp(v, mt)[::-1] for k, v in data.items()}
+            b.add_source("reversed-collection", lambda: coll.to_dict(), rcd)
+            b.add_source(
+                "reversed-collection-member",
+                lambda: _snapshot_of(coll.get_seq(NAME), s),
+                expect_snapshot(rcd[NAME], NAME, 0, -1),
+            )
+        return b
+    new = impl == "new"
+    if form == "str":
+        return Built(make_seq(s, name=NAME, moltype=mt, new_type=new, annotation_offset=off))
+    if form == "bytes":
+        return Built(make_seq(s.encode("utf8"), name=NAME, moltype=mt, new_type=new, annotation_offset=off))
+    if form == "ndarray":
+        import numpy
+
+        return Built(make_seq(numpy.array(list(s)), name=NAME, moltype=mt, new_type=new, annotation_offset=off))
+    if new:
+        from cogent3.core import new_moltype, new_sequence
+
+        mto = new_moltype.get_moltype(mt)
+    else:
+        from cogent3 import get_moltype
+        from cogent3.core import sequence
+
+        mto = get_moltype(mt)
+    if form.startswith("moltype-"):
+        data = s if form == "moltype-str" else s.encode("utf8")
+        if new:
+            return Built(mto.make_seq(seq=data, name=NAME, annotation_offset=off))
+        return Built(mto.make_seq(data, name=NAME, annotation_offset=off))
+    # the class constructor, which dispatches on the type of the data
+    cls = type(make_seq(s, name=NAME, moltype=mt, new_type=new))
+
+    def ctor(data, offset):
+        if new:
+            return cls(moltype=mto, seq=data, name=NAME, annotation_offset=offset)
+        return cls(data, name=NAME, annotation_offset=offset)
+
+    simple = {"ctor-str": lambda: s, "ctor-bytes": lambda: s.encode("utf8"), "ctor-tuple": lambda: tuple(s),
+              "ctor-list": lambda: list(s)}
+    if form in simple:
+        return Built(ctor(simple[form](), off))
+    if form == "ctor-ndarray":
+        import numpy
+
+        return Built(ctor(numpy.array(list(s)), off))
+    if form == "ctor-arrayseq":
+        arr = mto.make_array_seq(s, name=NAME)
+        if str(arr) != s:
+            # the array sequence itself does not hold this string (e.g. '-' in the text moltype): not a way of
+            # constructing *this* sequence, and not a view
+            raise FormNotApplicable(form)
+        return Built(ctor(arr, off))
+    if form in ("ctor-seqview-off", "ctor-seqview+off"):
+        inner = off if form.endswith("-off") else 0
+        if new:
+            sv = new_sequence.SeqView(seq=s, seqid=NAME, alphabet=mto.most_degen_alphabet(), offset=inner)
+        else:
+            sv = sequence.SeqView(seq=s, seqid=NAME, offset=inner)
+        return Built(ctor(sv, off - inner))
+    if form in ("ctor-seq-off", "ctor-seq+off"):
+        inner = off if form.endswith("-off") else 0
+        source = make_seq(s, name=NAME, moltype=mt, new_type=new, annotation_offset=inner)
+        b = Built(ctor(source, off - inner))
+        b.add_source("source-sequence", lambda: _snapshot_of(source, s), expect_snapshot(s, NAME, inner))
+        return b
+    raise ValueError(form)
 
 
 def fresh_seq(impl, mt, s):
@@ -415,6 +539,7 @@ class Ctx:
         self.start = case.get("start", "plain")
         self.other_seed = case.get("other_seed", 0)
         self.index_sweep = case.get("index_sweep", "full")
+        self.form = case.get("form", "str")
         self.ops = []
 
     def replay(self, battery):
@@ -428,6 +553,7 @@ class Ctx:
             "ops": [list(o) for o in self.ops],
             "other_seed": self.other_seed,
             "index_sweep": self.index_sweep,
+            "form": self.form,
             "battery": battery,
         }
 
@@ -439,6 +565,7 @@ class Ctx:
             seq=self.s0,
             annotation_offset=self.off,
             start=self.start,
+            input_form=self.form,
             ops=[list(o) for o in self.ops],
             replay_case=self.replay(list(battery)),
             **detail,
@@ -565,6 +692,8 @@ def check_coords(ctx, seq, m, opname):
     # wrong coordinates are a property of the view reported on (direction, stride), whichever operation made it
     vname = ("reversed" if m.rev else "forward") + ("-strided" if m.mstep > 1 else "") + "-view"
     pre = f"C01/coords/{ctx.impl}/{vname}"
+    if opname.startswith("construct-from-"):
+        pre = f"C01/construct/{ctx.impl}/{opname[15:]}-input/coords"
     try:
         sid, a, b, strand = seq.parent_coordinates()
         ao = seq.annotation_offset
@@ -913,7 +1042,7 @@ def predict_sliced_twice(seq, m):
 
 
 def rebuild(ctx, off=None):
-    s = build(ctx.impl, ctx.mt0, ctx.s0, ctx.off if off is None else off, ctx.start)
+    s = build(ctx.impl, ctx.mt0, ctx.s0, ctx.off if off is None else off, ctx.start, ctx.form).seq
     for op in ctx.ops:
         s = apply_real(s, op)
     return s
@@ -971,23 +1100,48 @@ class Chain:
         self.seq = None
         self.m = None
         self.hostile = False
+        self.sources = []
         self.mtclass = "nuc" if case["moltype"] in COMP else "other"
 
     def begin(self):
         ctx, res = self.ctx, self.res
         m = Model(ctx.s0, ctx.mt0, ctx.off)
         try:
-            seq = build(ctx.impl, ctx.mt0, ctx.s0, ctx.off, ctx.start)
+            try:
+                built = build(ctx.impl, ctx.mt0, ctx.s0, ctx.off, ctx.start, ctx.form)
+            except FormNotApplicable:
+                res.count("input-form-not-applicable:" + ctx.form)
+                ctx.form = "str"
+                built = build(ctx.impl, ctx.mt0, ctx.s0, ctx.off, ctx.start, ctx.form)
         except Exception as e:  # noqa: BLE001
             res.evals += 1
-            ctx.raised(f"C01/construct/{ctx.impl}", e)
+            ctx.raised(f"C01/construct/{ctx.impl}" + ("" if ctx.form == "str" else f"/{INPUT_TYPE[ctx.form]}-input"), e)
             return False
+        seq = built.seq
+        self.sources = built.sources
         if ctx.start == "collrc":
             m = m.apply(("rc",))
             self.hostile = True
-        if not observe(ctx, seq, m, "construct", self.light, last=self.nops == 0):
+        opname = "construct" if ctx.form == "str" else f"construct-from-{INPUT_TYPE[ctx.form]}"
+        if not observe(ctx, seq, m, opname, self.light, last=self.nops == 0):
             return False
         self.seq, self.m = seq, m
+        return self.reread_sources("construction")
+
+    def reread_sources(self, when):
+        """every object the sequence was derived from must still read, through fresh accessors, as its model says"""
+        ctx, res = self.ctx, self.res
+        for label, reader, expected in self.sources:
+            res.evals += 1
+            res.count("source-rereads")
+            try:
+                got = canon(reader())
+            except Exception as e:  # noqa: BLE001
+                ctx.raised(f"C01/source-altered/{ctx.impl}/{label}/after-{when}", e)
+                return False
+            if got != canon(expected):
+                ctx.witness(f"C01/source-altered/{ctx.impl}/{label}/after-{when}", got=got, expected=expected)
+                return False
         return True
 
     def step(self, op, advance=True):
@@ -1003,6 +1157,7 @@ class Chain:
         try:
             exp = m.apply(op)
             res.count("op:" + op[0])
+            before = None if self.light else _snapshot(seq)
             try:
                 new = apply_real(seq, op)
             except IndexError as e:
@@ -1024,6 +1179,15 @@ class Chain:
             hostile = self.hostile or op_hostile(op, n)
             if not observe(ctx, new, exp, opname, self.light, last=self.k >= self.nops):
                 return False
+            if before is not None:
+                # the operation derived a new object: the view it was applied to must read as before
+                res.evals += 1
+                res.count("source-rereads")
+                after = _snapshot(seq)
+                if after != before or after[0] != m.ms:
+                    kind = "to_moltype" if op[0] in ("to_rna", "to_dna") else op[0]
+                    ctx.witness(f"C01/source-altered/{impl}/view-operated-on/by-{kind}", view_before=before, view_afterwards=after)
+                    return False
             if depth >= 1 and hostile:
                 res.sig(impl, self.mtclass, prior, op_class(op, n))
             if advance:
@@ -1048,6 +1212,7 @@ def run_chain(res, case):
     battery = case.get("battery")
     if battery is None or battery:
         ch.battery(only=None if battery is None else set(battery), fraction=case.get("battery_fraction", 1.0))
+    ch.reread_sources("chain")
 
 
 # ---------------------------------------------------------------------------
@@ -1114,6 +1279,329 @@ def rand_ops(rng, mt, L):
     return ops
 
 
+# ---------------------------------------------------------------------------
+# equivalent ways of constructing the same sequence
+
+
+FORM_OPS = [["slice", 2, -1, None], ["rc"], ["slice", 1, None, 2], ["slice", None, None, -1]]
+
+
+def run_forms(res, case):
+    """every input form x with/without annotation_offset: same observations as the model (hence as each other),
+    same rich dict as the plain-str form, sources untouched; then a short chain with coordinates checked"""
+    rng = random.Random(case["seed"])
+    impl = case["impl"]
+    for _ in range(case["n"]):
+        mt = rng.choice(("dna", "dna", "rna", "protein", "text"))
+        s = rand_string(rng, mt)
+        ops = [op for op in FORM_OPS if mt in COMP or op[0] != "rc"]
+        for off in (0, rng.choice((3, 5, 17, 101))):
+            ref = None
+            for form in FORMS[impl] + FORMS_PROBED:
+                one = {"kind": "one", "impl": impl, "moltype": mt, "seq": s, "offset": off, "form": form,
+                       "ops": ops, "battery": [], "index_sweep": "ends"}
+                ctx = Ctx(res, one)
+                try:
+                    built = build(impl, mt, s, off, "plain", form)
+                except FormNotApplicable:
+                    res.count("input-form-not-applicable:" + form)
+                    continue
+                except Exception as e:  # noqa: BLE001
+                    if form in FORMS_PROBED:
+                        res.count(f"input-form-not-accepted:{impl}:{form}")
+                        continue
+                    res.evals += 1
+                    ctx.raised(f"C01/construct/{impl}/{INPUT_TYPE[form]}-input", e)
+                    continue
+                res.count(f"forms:{impl}:{form}")
+                res.count("forms-with-offset" if off else "forms-without-offset")
+                res.sig(impl, "form", form, "offset" if off else "no-offset", "nuc" if mt in COMP else "other")
+                try:
+                    rd = canon(built.seq.to_rich_dict())
+                except Exception as e:  # noqa: BLE001
+                    res.evals += 1
+                    ctx.raised(f"C01/construct/{impl}/{INPUT_TYPE[form]}-input/to_rich_dict", e)
+                    continue
+                if form == "str":
+                    ref = rd
+                    # the offset written to the rich dict is the one asked for
+                    res.evals += 1
+                    ao = built.seq.to_rich_dict().get("annotation_offset")
+                    if ao != off:
+                        ctx.witness(f"C01/construct/{impl}/str/rich-dict-offset", got=ao, expected=off)
+                elif ref is not None:
+                    res.evals += 1
+                    if rd != ref:
+                        ctx.witness(
+                            f"C01/construct/{impl}/{INPUT_TYPE[form]}-input/rich-dict-differs-from-str-input",
+                            got=rd, expected=ref,
+                        )
+                run_chain(res, one)
+
+
+# ---------------------------------------------------------------------------
+# collections: every derived object is right AND every object alive before the operation still reads the same
+
+
+def _rcs(s, mt):
+    return comp(s, mt)[::-1]
+
+
+class CollModel:
+    def __init__(self, names, seqs, mt, rev=None, views=True):
+        self.names = list(names)
+        self.seqs = dict(seqs)
+        self.mt = mt
+        self.rev = dict(rev or {n: False for n in names})
+        self.views = views
+        self.ever_rc = False
+
+    def expected(self):
+        obs = {"names": list(self.names), "to_dict": {n: self.seqs[n] for n in self.names}}
+        obs["members"] = {n: self.seqs[n] for n in self.names}
+        return obs
+
+    def coords_allowed(self, n):
+        """a member of a derived collection is either still a view on earlier data or a detached copy that is its
+        own parent; which of the two is not specified, and either names exactly the displayed segment. So the
+        minus strand is acceptable exactly when some ancestor of the collection was reverse complemented."""
+        L = len(self.seqs[n])
+        return [[0, L, 1]] + ([[0, L, -1]] if self.ever_rc else [])
+
+
+def read_collection(obj, model):
+    """observations through fresh accessors only"""
+    obs = {"names": list(obj.names), "to_dict": dict(obj.to_dict())}
+    obs["members"] = {}
+    obs["coords"] = {}
+    for n in model.names:
+        if n not in obs["names"]:
+            continue
+        seq = obj.get_seq(n)
+        obs["members"][n] = str(seq)
+        if model.seqs[n]:
+            obs["coords"][n] = list(seq.parent_coordinates()[1:])
+    return obs
+
+
+def diff_class(got, exp, model):
+    if got["names"] != exp["names"]:
+        return "names"
+    for key in ("to_dict", "members"):
+        if got[key] != exp.get(key, got[key]):
+            bad = [n for n in exp[key] if got[key].get(n) != exp[key][n]]
+            if model.mt in COMP and all(got[key].get(n) == _rcs(exp[key][n], model.mt) for n in bad):
+                return "member-orientation"
+            return "member-strings"
+    return "coordinates"
+
+
+def apply_coll_model(m, op):
+    new = _apply_coll_model(m, op)
+    new.ever_rc = m.ever_rc or op[0] in ("rc", "reverse_complement")
+    return new
+
+
+def _apply_coll_model(m, op):
+    kind = op[0]
+    if kind in ("rc", "reverse_complement"):
+        return CollModel(m.names, {n: _rcs(s, m.mt) for n, s in m.seqs.items()}, m.mt,
+                         {n: not r for n, r in m.rev.items()}, m.views)
+    if kind == "take_seqs":
+        names = [n for n in m.names if n not in op[2]] if op[3] else list(op[2])
+        return CollModel(names, {n: m.seqs[n] for n in names}, m.mt, {n: m.rev[n] for n in names}, m.views)
+    if kind == "rename_seqs":
+        f = RENAMERS[op[2]]
+        return CollModel([f(n) for n in m.names], {f(n): s for n, s in m.seqs.items()}, m.mt,
+                         {f(n): r for n, r in m.rev.items()}, m.views)
+    if kind in ("to_rna", "to_dna"):
+        a, b = ("T", "U") if kind == "to_rna" else ("U", "T")
+        return CollModel(m.names, {n: s.replace(a, b) for n, s in m.seqs.items()}, kind[3:], m.rev, m.views)
+    if kind == "degap":
+        return CollModel(m.names, {n: s.replace("-", "") for n, s in m.seqs.items()}, m.mt, m.rev, m.views)
+    if kind in ("copy", "deepcopy"):
+        return CollModel(m.names, m.seqs, m.mt, m.rev, m.views)
+    if kind == "add_seqs":
+        seqs = dict(m.seqs)
+        seqs.update(op[2])
+        rev = dict(m.rev)
+        rev.update({n: False for n in op[2]})
+        return CollModel(m.names + list(op[2]), seqs, m.mt, rev, m.views)
+    raise ValueError(op)
+
+
+RENAMERS = {"upper": lambda n: n.upper(), "suffix": lambda n: n + "_x", "swapcase": lambda n: n.swapcase()}
+
+
+def apply_coll_real(obj, op):
+    kind = op[0]
+    if kind == "take_seqs":
+        return obj.take_seqs(list(op[2]), negate=bool(op[3]))
+    if kind == "rename_seqs":
+        return obj.rename_seqs(RENAMERS[op[2]])
+    if kind == "add_seqs":
+        return obj.add_seqs(dict(op[2]))
+    if kind == "deepcopy":
+        import copy
+
+        return obj.deepcopy() if hasattr(obj, "deepcopy") else copy.deepcopy(obj)
+    return getattr(obj, kind)()
+
+
+def rand_collection_history(rng, impl):
+    mt = rng.choice(("dna", "dna", "dna", "rna"))
+    canon_, degen, _ = SYMS[mt]
+    names = ["s1", "s2", "Seq3", "t4"][: rng.randint(2, 4)]
+    data = {}
+    for n in names:
+        alpha = canon_ * 3 + (degen if rng.random() < 0.4 else "") + ("--" if rng.random() < 0.4 else "")
+        data[n] = "".join(rng.choice(alpha) for _ in range(rng.randint(1, 12)))
+    models = [CollModel(names, data, mt)]
+    ops = []
+    fresh = 0
+    for _ in range(rng.randint(2, 7)):
+        i = rng.randrange(len(models))
+        m = models[i]
+        r = rng.random()
+        if r < 0.3:
+            op = [rng.choice(("rc", "rc", "reverse_complement")), i]
+        elif r < 0.42 and len(m.names) > 1:
+            k = rng.randint(1, len(m.names) - 1)
+            op = ["take_seqs", i, rng.sample(m.names, k), rng.random() < 0.3]
+        elif r < 0.52:
+            op = ["rename_seqs", i, rng.choice(sorted(RENAMERS))]
+        elif r < 0.6:
+            op = ["to_rna" if m.mt == "dna" else "to_dna", i]
+        elif r < 0.68:
+            op = ["degap", i]
+        elif r < 0.76:
+            op = [rng.choice(("copy", "deepcopy")) if impl == "old" else "deepcopy", i]
+        elif r < 0.82 and impl == "new":
+            fresh += 1
+            op = ["add_seqs", i, {f"added{fresh}": "".join(rng.choice(canon_) for _ in range(rng.randint(1, 6)))}]
+        elif r < 0.91:
+            op = ["member_rc", i, rng.choice(m.names)]
+        else:
+            n = rng.choice(m.names)
+            L = len(m.seqs[n])
+            op = ["member_slice", i, n, rand_bound(rng, L, L), rand_bound(rng, L, L), rng.choice(STEPS)]
+        ops.append(op)
+        if not op[0].startswith("member_"):
+            models.append(apply_coll_model(m, [op[0], None] + op[2:]))
+    return {"kind": "coll-one", "impl": impl, "moltype": mt, "data": data, "ops": ops}
+
+
+def run_collection_history(res, case):
+    _setup()
+    from cogent3 import make_unaligned_seqs
+
+    impl, mt = case["impl"], case["moltype"]
+    data = dict(case["data"])
+    done = []
+
+    def witness(mech, **detail):
+        res.witness(
+            mech, impl=impl, moltype=mt, data=data, ops=done, **detail,
+            replay_case={"kind": "coll-one", "impl": impl, "moltype": mt, "data": data, "ops": list(done)},
+        )
+
+    def raised(prefix, e, **detail):
+        if isinstance(e, ViewInvariantError):
+            witness(f"C01/view-invariant/{impl}-collection/{e}", raised_during=prefix, **detail)
+        else:
+            witness(exc_mechanism(prefix, e), error=repr(e)[:300], **detail)
+
+    try:
+        root = make_unaligned_seqs(dict(data), moltype=mt, new_type=(impl == "new"))
+    except Exception as e:  # noqa: BLE001
+        res.evals += 1
+        raised(f"C01/collection/{impl}/construct", e)
+        return
+    live = [(root, CollModel(list(data), data, mt))]
+
+    def check(i, role, opname, src_index=None):
+        """compare live object i with its model; role is 'result' or 'earlier'"""
+        obj, model = live[i]
+        res.evals += 1
+        res.count("collection-rereads" if role == "earlier" else "collection-results")
+        if role == "earlier":
+            res.count("source-rereads")
+        exp = model.expected()
+        where = (
+            f"C01/collection/{impl}/{opname}/result"
+            if role == "result"
+            else f"C01/source-altered/{impl}-collection/by-{opname}"
+        )
+        try:
+            got = read_collection(obj, model)
+        except Exception as e:  # noqa: BLE001
+            raised(where, e, object_index=i)
+            return False
+        coords = got.pop("coords", {})
+        bad_coords = {n: c for n, c in coords.items() if c not in model.coords_allowed(n)}
+        if canon(got) != canon(exp) or bad_coords:
+            cls = diff_class(got, exp, model)
+            if cls == "coordinates":
+                got["coords"] = coords
+                exp["coords_allowed"] = {n: model.coords_allowed(n) for n in bad_coords}
+            if role == "result":
+                witness(f"{where}-{cls}", object_index=i, got=got, expected=exp)
+            else:
+                which = "the-collection-operated-on" if i == src_index else "another-live-collection"
+                witness(f"{where}/{which}/{cls}", object_index=i, got=got, expected=exp)
+            return False
+        return True
+
+    if not check(0, "result", "construct"):
+        return
+    for op in case["ops"]:
+        op = list(op)
+        kind, i = op[0], op[1]
+        obj, model = live[i]
+        done.append(op)
+        opname = METHOD_GROUP.get(kind, kind)
+        res.count("collection-op:" + kind)
+        res.count(f"collection:{impl}:{kind}")
+        state = ("rev" if any(model.rev.values()) else "fwd") + ("-views" if model.views else "-detached")
+        if kind.startswith("member_"):
+            name = op[2]
+            s = model.seqs[name]
+            res.evals += 1
+            try:
+                seq = obj.get_seq(name)
+                if kind == "member_rc":
+                    got, exp = str(seq.rc()), _rcs(s, model.mt)
+                else:
+                    sl = slice(op[3], op[4], op[5])
+                    got = str(seq[sl])
+                    exp = s[sl]
+                    if op[5] is not None and op[5] < 0:
+                        exp = comp(exp, model.mt)
+            except Exception as e:  # noqa: BLE001
+                raised(f"C01/collection/{impl}/{opname}", e)
+                return
+            if got != exp:
+                witness(f"C01/collection/{impl}/{opname}/result", got=got, expected=exp)
+                return
+        else:
+            try:
+                new = apply_coll_real(obj, [kind, None] + op[2:])
+            except Exception as e:  # noqa: BLE001
+                res.evals += 1
+                raised(f"C01/collection/{impl}/{opname}", e)
+                return
+            live.append((new, apply_coll_model(model, [kind, None] + op[2:])))
+            if not check(len(live) - 1, "result", opname):
+                return
+        if len(done) >= 2:
+            res.sig(impl, "collection", kind, state)
+        # every object that existed before the operation, read again through fresh accessors
+        upto = len(live) - (0 if kind.startswith("member_") else 1)
+        for j in range(upto):
+            if not check(j, "earlier", opname.replace("_", "-") if kind.startswith("member_") else opname, src_index=i):
+                return
+
+
 def run_case(case):
     res = Result()
     _setup()
@@ -1134,6 +1622,7 @@ def run_case(case):
                 "seq": s,
                 "offset": 0 if impl == "newcoll" else rng.choice((0, 0, 5, 17)),
                 "start": "collrc" if impl == "newcoll" and mt in COMP and rng.random() < 0.4 else "plain",
+                "form": "str" if impl == "newcoll" or rng.random() < 0.5 else rng.choice(FORMS[impl]),
                 "ops": rand_ops(rng, mt, len(s)),
                 "other_seed": rng.randrange(2**31),
                 "battery": None,
@@ -1146,7 +1635,20 @@ def run_case(case):
             res.count("moltype:" + mt)
             if one["offset"]:
                 res.count("chains-with-annotation-offset")
-        res.sample({k: one[k] for k in ("impl", "moltype", "seq", "offset", "ops")})
+                if one["form"] != "str":
+                    res.count("chains-with-offset-from-other-input-form")
+        res.sample({k: one[k] for k in ("impl", "moltype", "seq", "offset", "form", "ops")})
+    elif kind == "forms":
+        run_forms(res, case)
+    elif kind == "collections":
+        rng = random.Random(case["seed"])
+        for _ in range(case["n"]):
+            one = rand_collection_history(rng, case["impl"])
+            run_collection_history(res, one)
+            res.count("collection-histories")
+        res.sample({k: one[k] for k in ("impl", "moltype", "data", "ops")})
+    elif kind == "coll-one":
+        run_collection_history(res, case)
     elif kind == "exhaust":
         L = case["L"]
         triples = _exh_triples(L, case.get("pad", 3), case.get("steps", STEPS))
@@ -1206,5 +1708,20 @@ def required(counters, tier):
         "method:resolved_ambiguities",
         "method:to_rna",
         "method:get_translation",
+        "source-rereads",
+        "chains-with-offset-from-other-input-form",
+        "forms-with-offset",
+        "forms-without-offset",
+        "forms:new:bytes",
+        "forms:old:bytes",
+        "forms:new:ctor-seq+off",
+        "forms:old:ctor-seqview+off",
+        "collection-rereads",
+        "collection:new:rc",
+        "collection:old:rc",
+        "collection:new:take_seqs",
+        "collection:old:rename_seqs",
+        "collection:new:deepcopy",
+        "collection:new:member_rc",
     ]
     return [k for k in need if not counters.get(k)]
